@@ -99,6 +99,21 @@ func genCase(t *rapid.T) Case {
 				if rapid.IntRange(0, 5).Draw(t, fmt.Sprintf("hn%d.%d", i, pi)) == 0 {
 					d["nothing"] = nil
 				}
+				// three levels of nesting with siblings, and a top-level field named like an inner segment
+				if rapid.IntRange(0, 2).Draw(t, fmt.Sprintf("hd%d.%d", i, pi)) > 0 {
+					a := map[string]any{"x": int64(rapid.IntRange(-2, 3).Draw(t, fmt.Sprintf("dax%d.%d", i, pi)))}
+					if rapid.Bool().Draw(t, fmt.Sprintf("hday%d.%d", i, pi)) {
+						a["y"] = rapid.SampledFrom([]string{"p", "q", "r"}).Draw(t, fmt.Sprintf("day%d.%d", i, pi))
+					}
+					deep := map[string]any{"a": a}
+					if rapid.Bool().Draw(t, fmt.Sprintf("hdb%d.%d", i, pi)) {
+						deep["b"] = map[string]any{"x": int64(rapid.IntRange(0, 2).Draw(t, fmt.Sprintf("dbx%d.%d", i, pi))), "w": []any{int64(1), "two"}}
+					}
+					d["deep"] = deep
+				}
+				if rapid.IntRange(0, 3).Draw(t, fmt.Sprintf("ha%d.%d", i, pi)) == 0 {
+					d["a"] = int64(rapid.IntRange(0, 3).Draw(t, fmt.Sprintf("a%d.%d", i, pi)))
+				}
 				g.M.Docs[st.Points[pi].Id] = model.CloneDoc(d)
 			}
 		}
@@ -111,7 +126,8 @@ func genCase(t *rapid.T) Case {
 			ranked = append(ranked, p)
 		}
 	}
-	selectable := append([]string{"rank", "price", "label", "nothing", "missing", "meta", "meta.k", "meta.name", "meta.absent"}, gen.SortedProps(schema)...)
+	selectable := append([]string{"rank", "price", "label", "nothing", "missing", "meta", "meta.k", "meta.name", "meta.absent",
+		"deep.a.x", "deep.a.y", "deep.a.x", "deep.a.y", "deep.b.x", "deep.b.w", "deep.a", "deep", "deep.a.z", "deep.c.x", "a", "x"}, gen.SortedProps(schema)...)
 	ns := rapid.IntRange(1, nspec).Draw(t, "nspecs")
 	for i := 0; i < ns; i++ {
 		sp := Spec{Query: genTree(t, fmt.Sprintf("t%d", i), g, ranked, 3)}
